@@ -49,8 +49,14 @@ func serialClass(s *big.Int) string {
 	return "small"
 }
 
-// CRL number alphabet: index 0 = extension absent.
-var crlNumbers = []*big.Int{nil, big.NewInt(0), big.NewInt(7), pow2(31), pow2(70)}
+// CRL number alphabet: index 0 = extension absent. Indices < nCoreNumbers take
+// part in the full header product; the others (boundaries of the API's int
+// field, a negative number, the 20-octet maximum of RFC 5280) are crossed with
+// the header subset only (see main).
+var crlNumbers = []*big.Int{nil, big.NewInt(0), big.NewInt(7), pow2(31), pow2(70),
+	big.NewInt(-1), new(big.Int).Sub(pow2(63), big.NewInt(1)), pow2(63), new(big.Int).Sub(pow2(159), big.NewInt(1))}
+
+const nCoreNumbers = 5
 
 var cacheModes = []string{"nil", "first-wins", "last-wins", "empty"}
 
@@ -416,8 +422,13 @@ func checkHeader(m *model, got *crl.RevocationData, out *[]verdict, h ev.Hist) {
 		}
 		h["crlnumber:copied"]++
 	default:
-		// does not fit the API's int field: whatever is reported is information
-		h["info:crlnumber-exceeds-int reported-as="+strconv.Itoa(got.CRLExtensions.CRLNumber)]++
+		// does not fit the API's int field and no error was returned: whatever is
+		// reported is not the CRL's number
+		rep := "another value"
+		if got.CRLExtensions.CRLNumber == 0 {
+			rep = "0"
+		}
+		*out = append(*out, verdict{"header: CRLNumber does not fit int but the call succeeded and reported " + rep, fmt.Sprintf("got %d want %s (or an error)", got.CRLExtensions.CRLNumber, m.crlNum)})
 	}
 	// classification: every extension other than the CRL number lands in exactly
 	// the list matching its critical flag. The authority key id has a dedicated
@@ -501,6 +512,12 @@ func evalCall(cl *pkix.CertificateList, m *model, q *big.Int, mode int, cache ma
 	var err error
 	if p, msg, site := ev.Try(func() { got, err = crl.CheckCRLForCert(cl, cert, cache) }); p {
 		return []verdict{{"panic@" + site + ": " + ev.MsgClass(msg), msg}}
+	}
+	if err != nil && m.crlNum != nil && !fitsInt(m.crlNum) {
+		// RevocationData carries the CRL number in an int: a number that does not
+		// fit cannot be copied, refusing the CRL is the only truthful answer.
+		h["crlnumber:exceeds-int→error"]++
+		return nil
 	}
 	if err != nil || got == nil {
 		return []verdict{{"unexpected error/nil result for a well-formed CRL", fmt.Sprint(err)}}
@@ -626,12 +643,12 @@ func main() {
 		orders := ev.Pick(c, 1, 2)
 		issuers := ev.Pick(c, 1, 2)
 		debug.SetGCPercent(200)
-		c.Rule(fmt.Sprintf("hand-assembled pkix.CertificateList: entry lists = all sequences of length<=%d over serials {1,2,-1,2^64,2^159} (repeats = duplicates with different times) x time mode {distinct, first entry zero time} x entry extensions {none, reason on all, reason+invalidityDate on odd} x header; header = list extensions {CRL number in {none,0,7,2^31,2^70}} x {AKID} x {unknown critical} x {unknown non-critical} x %d order(s) x version {0,1} x NextUpdate {set,zero} x %d issuer name(s): the full header product for every list of length<=%d, and the 8-element header subset {CRL number none|2^70} x {no other extension | AKID+critical+non-critical} x {v1,NextUpdate zero | v2,NextUpdate set} for longer lists (lookup and header copying share no code path); CreateCRL source: all lists x entry extensions x issuer with/without SKID x expiry {set,zero}, DER parsed by ParseDERCRL and cross-read with crypto/x509; every CRL x query serial in {1,2,-1,2^64,2^159,3,0} x cache in {nil, first-wins, last-wins, empty non-nil}; a CRL is non-trivial/distinct by its configuration", maxLen, orders, issuers, fullHdrLen))
+		c.Rule(fmt.Sprintf("hand-assembled pkix.CertificateList: entry lists = all sequences of length<=%d over serials {1,2,-1,2^64,2^159} (repeats = duplicates with different times) x time mode {distinct, first entry zero time} x entry extensions {none, reason on all, reason+invalidityDate on odd} x header; header = list extensions {CRL number in {none,0,7,2^31,2^70}} x {AKID} x {unknown critical} x {unknown non-critical} x %d order(s) x version {0,1} x NextUpdate {set,zero} x %d issuer name(s): the full header product for every list of length<=%d, and the 8-element header subset {CRL number none|2^70} x {no other extension | AKID+critical+non-critical} x {v1,NextUpdate zero | v2,NextUpdate set} for longer lists (lookup and header copying share no code path), plus, for every list of length<=%d, CRL number in {-1, 2^63-1, 2^63, 2^159-1} x {no other extension | AKID+critical+non-critical} x {v1,NextUpdate zero | v2,NextUpdate set}; a CRL number that fits int must be copied, one that does not (2^63, 2^70, 2^159-1; also 2^31 and 2^63-1 where int has 32 bits) must make the call fail: a successful call reporting any number is a violation; CreateCRL source: all lists x entry extensions x issuer with/without SKID x expiry {set,zero}, DER parsed by ParseDERCRL and cross-read with crypto/x509; every CRL x query serial in {1,2,-1,2^64,2^159,3,0} x cache in {nil, first-wins, last-wins, empty non-nil}; a CRL is non-trivial/distinct by its configuration", maxLen, orders, issuers, fullHdrLen, fullHdrLen))
 		c.Assume(
 			"the cache is keyed by the decimal string of the serial (the convention of crl_test.go) and points at the CRL's own entries",
 			"reference = linear first-match search over the model's entry list; extension values are encoded/decoded with the standard library's encoding/asn1",
 			"a non-nil empty cache for a CRL that lists the queried serial: both answers accepted (statement silent); last-wins cache on duplicates: time of first or last accepted, counted separately",
-			"authority key id: kept as unknown non-critical extension or decoded into CRLExtensions.AuthKeyID are both accepted; a CRL number that does not fit int is information",
+			"authority key id: kept as unknown non-critical extension or decoded into CRLExtensions.AuthKeyID are both accepted; a CRL number that does not fit the int field ListExtensionData.CRLNumber cannot be copied: only an error is accepted",
 			"RevocationData.Version / signature fields are not named by the statement: differences are information only",
 		)
 
@@ -670,7 +687,7 @@ func main() {
 			issuer  int
 		}
 		var hdrs []hdr
-		for cn := range crlNumbers {
+		for cn := 0; cn < nCoreNumbers; cn++ {
 			for ak := 0; ak < 2; ak++ {
 				for uc := 0; uc < 2; uc++ {
 					for un := 0; un < 2; un++ {
@@ -698,6 +715,21 @@ func main() {
 			}
 		}
 		c.Set("header_subset_for_long_lists", len(hdrsSmall))
+		// boundary CRL numbers: same 4-element subset of the other header fields
+		var hdrsEdge []hdr
+		for cn := nCoreNumbers; cn < len(crlNumbers); cn++ {
+			for _, on := range []bool{false, true} {
+				for _, v2 := range []bool{false, true} {
+					v := 0
+					if v2 {
+						v = 1
+					}
+					hdrsEdge = append(hdrsEdge, hdr{extCfg{cn, on, on, on, 0}, v, v2, 0})
+				}
+			}
+		}
+		c.Set("header_boundary_crl_numbers", len(hdrsEdge))
+		hdrsFull := append(append([]hdr{}, hdrs...), hdrsEdge...)
 
 		// unit = (list, time mode, entry ext mode)
 		nUnits := len(lists) * 2 * 3
@@ -729,7 +761,7 @@ func main() {
 			li := u / 6
 			tm := (u % 6) / 3
 			ee := u % 3
-			hs := hdrs
+			hs := hdrsFull
 			if len(lists[li]) > fullHdrLen {
 				hs = hdrsSmall
 			}
